@@ -45,6 +45,10 @@ func runC05(k *kernel.K) {
 	n := simnet.New(k)
 	n.DefaultPolicy = simnet.ChunkPolicy(w.Pick([]int{5, 3, 1, 1, 0, 2}))
 	n.TCPLikeConns = w.Chance(1, 2)
+	n.ResetOnCloseWithUnread = n.TCPLikeConns && w.Chance(1, 2) // close(2) with unread input resets a TCP connection
+	if n.ResetOnCloseWithUnread {
+		k.Probe("network_resets_on_close_with_unread_input")
+	}
 	env := newTLSEnv()
 	mc := env.mitmConfig()
 
@@ -220,6 +224,14 @@ func runC05(k *kernel.K) {
 		h.spec.Method, h.spec.Framing, h.spec.Body = "GET", "", nil
 		h.raw = h.spec.Encode()
 	}
+	// Sometimes the origin ends the last exchange with Connection: close while the client has
+	// already pipelined one more request behind it: the proxy closes the connection with that
+	// request unread, which must not cost the last exchange its response.
+	pipelinedTail := inner == "tls" && hijackID < 0 && len(reqs) > 0 && w.Chance(1, 4)
+	if pipelinedTail {
+		specs[reqs[len(reqs)-1].id].Close = true
+		k.Probe("request_pipelined_behind_last_exchange")
+	}
 	k.Note("target=%s listener=%s inner=%s sni=%v requests=%d hijack=%d policy=%d", tg.authority, listenerKind, inner, sni, len(reqs), hijackID, n.DefaultPolicy)
 	for _, r := range reqs {
 		k.Note("  #%d %s %s %s", r.id, r.form, r.spec.Method, r.spec.Target())
@@ -231,6 +243,7 @@ func runC05(k *kernel.K) {
 		cl.SendConnect(tg.authority, "")
 	}
 	sentHijackExtra := false
+	sentTail := false
 	k.AddSource(func(add func(kernel.Action)) {
 		if k.Draining {
 			return
@@ -257,6 +270,14 @@ func runC05(k *kernel.K) {
 			add(kernel.Action{Key: fmt.Sprintf("client send #%d", r.id), W: 3, Class: kernel.Actor, Do: func() {
 				r.sent = true
 				cl.Send(r.spec.Method, r.raw)
+			}})
+		}
+		if next < 0 && pipelinedTail && !sentTail && len(fin) < len(reqs) {
+			// (a separate write, some time after the last request: the proxy is waiting for the
+			// origin by then and leaves these bytes unread on the socket)
+			add(kernel.Action{Key: "client pipelines one more request", W: 3, Class: kernel.Actor, Do: func() {
+				sentTail = true
+				cl.Send("", (&ReqSpec{ID: 99, Method: "GET", Host: tg.authority, Path: "/x99/extra"}).Encode())
 			}})
 		}
 		if next < 0 && hijackID > 0 && !sentHijackExtra && len(fin) >= len(reqs) {
